@@ -217,8 +217,11 @@ OPEN = [
     "setup_only_missing_app_close, checked_entity_loads, reactors_sortable, xdata_codes_valid); no theorem covers the entity "
     "specific loaders, post_load_hook, Auditor, export, strict reload (oracle only; all ten former save/reload findings are fixed "
     "in the repository, see known.d/C07.json 'fixed')",
-    "single faults that break the pairing of code and value lines (a dropped code line or value line: all following lines are "
-    "re-paired) are not covered by a byte-level theorem (single_fault_bytes needs complete line pairs); correspondence and oracle only",
+    "faults that break the pairing of code and value lines: lost_value_line_resync / lost_line_raises / loader_stops_at_noninteger say exactly "
+    "what the loader delivers (the re-paired tags up to the first line at a code position without an integer, then DXFStructureError); "
+    "loader_classification gives the loader's result for every line list (ends: end of lines / (0, EOF) / line without integer); NOT proved: which "
+    "section dict recover builds from a shifted stream that ends by (0, EOF) or end of lines (every former value line contains a digit) - "
+    "correspondence and oracle only",
     "single_fault_window / single_fault_bytes need the stale-code hypothesis: filter_invalid_point_codes keeps its expected_code across a "
     "(0, ..) tag (stale_code_matters: proved necessary, confirmed on the real function; harmless for written files)",
     "crashed_writer_bytes keeps the existential R12 flag of sections_prefix_stable (a HEADER section behind the cut changes the version)",
